@@ -38,7 +38,7 @@ CHECKS = {
                 text="SQLCompiler._truncated_identifier (length <= label_length, memo idempotent, earlier names keep their rendering, counters only grow), IdentifierPreparer._truncate_and_render_maxlen_name (length <= max_) and truncate_and_render_index/constraint_name (the kind-specific limit applies when the dialect defines it) are proved for all lengths with strings modelled by length. Bounded complement: naming conventions x dialect families x limits.",
                 note="strings by length only; md5/apply_map pure; preconditions label_length >= 6, max_ >= 8; uniqueness within a statement bounded only"),
     "C23": dict(level="proof", technique=PROOF_TECH, design="DESIGN.md §5 C23",
-                text="the context-manager protocol of transactions (TransactionalContext.__enter__ / __exit__ / _trans_ctx_check) is proved: entering links the transaction to its subject and remembers the enclosing one; leaving restores the enclosing link and clears its own on all 26 paths (commit, rollback, close, and exceptions out of any of them); using the subject inside a block whose transaction has ended raises. The end of life of the concrete classes is proved too: RootTransaction._close_impl/_do_commit (detached and inactive on every exit) and NestedTransaction._deactivate_from_connection / _close_impl / _do_commit (inactive on every exit, popped off the connection, the enclosing savepoint becomes current) / _cancel (recursive, over a ghost chain of handles: every savepoint handle ends inactive and none stays current, also after out-of-order ends). Bounded complement: ghost nested-transaction model after every step of every operation sequence on file-backed SQLite, incl. recovery after a first deviation.",
+                text="the context-manager protocol of transactions (TransactionalContext.__enter__ / __exit__ / _trans_ctx_check) is proved: entering links the transaction to its subject and remembers the enclosing one; leaving restores the enclosing link and clears its own on all 26 paths (commit, rollback, close, and exceptions out of any of them); using the subject inside a block whose transaction has ended raises. The life cycle of the concrete classes is proved too: RootTransaction.__init__ (attached and active, or -- BEGIN failed -- not at all), _close_impl/_do_commit/_do_close/_do_rollback and Transaction.close/rollback/commit (detached and inactive on every exit; the asserts in their finally blocks discharged) and NestedTransaction.__init__ (pushing keeps the savepoint chain well formed) / _deactivate_from_connection / _close_impl / _do_commit / _do_close / _do_rollback (inactive on every exit, popped off the connection, the enclosing savepoint becomes current) / _cancel (recursive, over a ghost chain of handles: every savepoint handle ends inactive and none stays current, also after out-of-order ends). Bounded complement: ghost nested-transaction model after every step of every operation sequence on file-backed SQLite, incl. recovery after a first deviation.",
                 note="abstract contracts on the operations called through the context manager; Connection.begin/begin_nested and NestedTransaction.__init__ (which builds the chain) bounded only; SQLite stands for a backend"),
     "C24": dict(level="proof", technique=PROOF_TECH, design="DESIGN.md §5 C24",
                 text="the reset path is proved: _ConnectionFairy._reset leaves no open transaction for reset_on_return rollback/commit (or was told, under a call-site precondition, that the transaction is already reset) and DefaultDialect.reset_isolation_level restores the engine-wide level; DefaultDialect._set_connection_characteristics schedules exactly one reset finalizer per call behind those already pending (none when the call is refused); _finalize_fairy (end of a checkout, explicit or by the garbage collector; sync dialects, non-detached) runs the reset, invalidates the record when the reset fails with an Exception, checks the record in exactly once and ignores stale gc callbacks; ghost txn_open / iso_level per DBAPI connection. Bounded complement: all pool histories on a fake DBAPI incl. multi-call / engine-level execution options.",
